@@ -253,7 +253,14 @@ void DocumentBuilder::proc_edge_begin(const char* from, const char* to, const bo
 
 void DocumentBuilder::proc_edge_end(const char* from, const char* to) { popFrame(); }
 
-void DocumentBuilder::proc_select(const char* id) { addSelectSymbolToFrame(id, currentEdge->select, position); }
+void DocumentBuilder::proc_select(const char* id)
+{
+    if (!currentEdge) {
+        handle_error(TypeException("Must be declared inside of an edge"));
+        return;
+    }
+    addSelectSymbolToFrame(id, currentEdge->select, position);
+}
 
 void DocumentBuilder::proc_guard()
 {
